@@ -241,6 +241,7 @@ func (f *Flow) edgeFacts(from *ssa.BasicBlock, succIdx int, out Facts) Facts {
 			}
 			res.Add(a)
 			addConjuncts(res, a)
+			f.unitPropagate(res, a)
 			// what a validator's verdict implies is materialised here, so that later writes kill it fact by fact
 			f.addDerived(res, a)
 		}
@@ -347,6 +348,54 @@ func (f *Flow) out(b *ssa.BasicBlock) Facts {
 		f.transfer(instr, facts)
 	}
 	return facts
+}
+
+// unitPropagate: !and(x1..xn) with all but one conjunct known true gives the negation of the remaining one;
+// or(x1..xn) with all but one disjunct known false gives the remaining one.
+func (f *Flow) unitPropagate(facts Facts, a *Atom) {
+	if a.Pred != "truth" || len(a.Args) != 1 {
+		return
+	}
+	t := a.Args[0]
+	has := f.withAssumptions(facts)
+	switch {
+	case t.Op == "and" && a.Neg:
+		var open []*Term
+		for _, x := range t.Args {
+			switch evalBool(x, has) {
+			case 1:
+			case -1:
+				return
+			default:
+				open = append(open, x)
+			}
+		}
+		if len(open) == 1 {
+			if c := atomOf(open[0], a.Site); c != nil {
+				n := c.Negate()
+				facts.Add(n)
+				f.addDerived(facts, n)
+			}
+		}
+	case t.Op == "or" && !a.Neg:
+		var open []*Term
+		for _, x := range t.Args {
+			switch evalBool(x, has) {
+			case -1:
+			case 1:
+				return
+			default:
+				open = append(open, x)
+			}
+		}
+		if len(open) == 1 {
+			if c := atomOf(open[0], a.Site); c != nil {
+				facts.Add(c)
+				addConjuncts(facts, c)
+				f.addDerived(facts, c)
+			}
+		}
+	}
 }
 
 func (f *Flow) otherTypeKnown(facts Facts, it *Term) bool {
